@@ -1332,6 +1332,29 @@ TARGETS5 = [
     ("DistanceMatrix", "IndexMut<(usize,usize)>", "index_mut", "indexMut2", dict(LOW, ret=NAT, refpos=True)),
 ]
 
+# set 6 (Model/AlgoGen6.lean): the function bodies that no earlier set regenerates
+STRUCTS.update({
+    # a trait with a default method: `self` is ANY implementor of the supertrait `Order`, abstracted to the value of `self.order()`
+    "ContiguousOrder": dict(dir="op", file="contiguous_order.rs", graph=None, sentinel=None, item=None,
+                            extern="HasOrder", lean_fields={}, fields=[], trait_default="Order"),
+})
+TARGETS6 = [
+    ("AdjacencyList", "IndegreeSequence", "indegree_sequence", "indegreeSequence", LOW),
+    ("AdjacencyMap", "AddArc", "add_arc", "addArc", LOW),
+    ("EdgeList", "AddArc", "add_arc", "addArc", LOW),
+    ("AdjacencyListWeighted", "AddArcWeighted", "add_arc_weighted", "addArcWeighted", LOW),
+    ("FloydWarshall", None, "new", "new", LOW),
+    ("PredecessorTree", "From<Vec<Option<usize>>>", "from", "fromVec", LOW),
+    ("PredecessorTree", "Index<usize>", "index", "index", dict(LOW, ret=OPT(NAT))),
+    ("PredecessorTree", "IndexMut<usize>", "index_mut", "indexMut", dict(LOW, ret=NAT, refpos=True)),
+    ("PredecessorTree", "IntoIterator", "into_iter", "intoIter", dict(LOW, ret=LIST(OPT(NAT)), byval=True)),
+    ("ContiguousOrder", "@default", "contiguous_order", "contiguousOrder", LOW),
+]
+# the five representation structs: the functions of every set use the hand-written `Repr.*` structures for them (`extern`);
+# set 6 also emits their FIELD LISTS as read from the source (`<Name>Decl`), tied to `Repr.*` in `Proof/AlgoGen6.lean`
+DECLS6 = ["AdjacencyList", "AdjacencyMap", "AdjacencyMatrix", "EdgeList", "AdjacencyListWeighted"]
+SET6_DECLARED_EARLIER = ("DistanceMatrix", "PredecessorTree", "FloydWarshall")      # declared by set 1 (`Model/AlgoGen.lean`)
+
 # the second generated file (Model/AlgoGen2.lean)
 TARGETS2 = [
     ("Tarjan", None, "new", "new", {}),
@@ -1369,11 +1392,11 @@ TARGETS2 = [
 
 # candidates deliberately left to the hand-written models
 NOT_COVERED = {
-    ("FloydWarshall", None, "new"): "calls `DistanceMatrix::new` (`set_len` + `ptr::write` on an uninitialised buffer; `DistanceMatrix::new` itself: set 5, `Model/AlgoGen5.lean`)",
-    ("PredecessorTree", "From", "from"): "trivial wrapper, not modelled by hand either",
-    ("PredecessorTree", "Index", "index"): "trivial wrapper (`&self.pred[index]`)",
-    ("PredecessorTree", "IndexMut", "index_mut"): "trivial wrapper",
-    ("PredecessorTree", "IntoIterator", "into_iter"): "trivial wrapper",
+    ("FloydWarshall", None, "new"): "in set 6 (`Model/AlgoGen6.lean`): calls `DistanceMatrix::new` (`set_len` + `ptr::write` on an uninitialised buffer: set 5, `Model/AlgoGen5.lean`)",
+    ("PredecessorTree", "From", "from"): "in set 6 (`Model/AlgoGen6.lean`): trivial wrapper",
+    ("PredecessorTree", "Index", "index"): "in set 6 (`Model/AlgoGen6.lean`): trivial wrapper (`&self.pred[index]`)",
+    ("PredecessorTree", "IndexMut", "index_mut"): "in set 6 (`Model/AlgoGen6.lean`): trivial wrapper",
+    ("PredecessorTree", "IntoIterator", "into_iter"): "in set 6 (`Model/AlgoGen6.lean`): trivial wrapper",
 }
 
 # set 3: the candidates of the coordinator's list that stay hand-written
@@ -4750,6 +4773,8 @@ def translate_fn(sname, trait, rfn, lname, opts, params_text, ret_text, body_tex
     CUR["graph"] = STRUCTS[sname]["graph"] or "Graph"
     if trait == "@free":
         ctx.impl_label = "free function of the file"
+    elif trait == "@default":
+        ctx.impl_label = f"trait {sname}: {STRUCTS[sname]['trait_default']} (default method)"
     elif trait and trait.startswith("@"):
         mname, src = trait[1:].split(":")
         ctx.impl_label = f"impl From<{src}> for {sname} (macro {mname}!)"
@@ -4771,7 +4796,7 @@ def translate_fn(sname, trait, rfn, lname, opts, params_text, ret_text, body_tex
         if not part:
             continue
         if part in ("&mut self", "&self", "self", "mut self"):
-            if part in ("self", "mut self"):
+            if part in ("self", "mut self") and not (part == "self" and opts.get("byval")):
                 raise TErr("a by-value `self` receiver is outside the supported subset")
             ctx.self_mode = "mut" if part == "&mut self" else "ref"
             ctx.names.add("self")
@@ -4915,6 +4940,18 @@ namespace GraafVerif.AlgoGen
 '''
 
 
+def extern_decl(sname):
+    """the field list of a representation struct as a structure `<Name>Decl` (the fields under their Rust names)"""
+    info = STRUCTS[sname]
+    lines = [f"/-- `{info['dir']}/{info['file']}`: `pub struct {sname}` — the field list as declared in the source; the generated "
+             f"functions use the hand-written `{info['extern']}` (the same fields: `{sname}Decl.toRepr`, `Proof/AlgoGen6.lean`). -/",
+             f"structure {sname}Decl where"]
+    for f, rt, ty in info["fields"]:
+        lines.append(f"  {f} : {lean_ty(ty)}")
+    lines.append("  deriving DecidableEq, Repr")
+    return "\n".join(lines) + "\n"
+
+
 def struct_decl(sname):
     info = STRUCTS[sname]
     note = " (the digraph reference is the parameter `g` of the functions)" if info["graph"] else ""
@@ -4999,6 +5036,15 @@ def load(repo, targets):
         info = STRUCTS[sname]
         path = os.path.join(repo, "src", info.get("dir", "algo"), info["file"])
         region = non_test_region(open(path).read())
+        if info.get("trait_default"):
+            mt = re.search(r"^pub\s+trait\s+" + sname + r"\s*:\s*([\w\s+]+?)\s*\{", region, re.M)
+            if not mt:
+                raise TErr(f"{info['file']}: `pub trait {sname}: ..` not found")
+            if squeeze(mt.group(1)) != info["trait_default"]:
+                raise TErr(f"{info['file']}: trait {sname} has the supertraits `{squeeze(mt.group(1))}`, the model expects `{info['trait_default']}`")
+            tend = match_close(region, mt.end(), "{", "}")
+            out[sname] = (region, [("@default", fns_of(region[mt.end():tend - 1]))], file_aliases(region))
+            continue
         got = struct_fields(region, info.get("rust", sname))
         want = [(f, rt) for f, rt, _ in info["fields"]]
         if got != want:
@@ -5011,6 +5057,12 @@ def load(repo, targets):
             if "where" in hdr:
                 w = hdr.split("where", 1)[1].rstrip("{").strip().rstrip(",")
                 fns = {k: (v[0], v[1] + (" where " + w if "where" not in v[1] else ", " + w), v[2]) for k, v in fns.items()}
+            # associated types of the impl (`type Weight = W;`): `Self::Weight` in a signature is that type (`Item` is
+            # checked against the typed model separately)
+            for ma in re.finditer(r"^\s*type\s+(\w+)\s*=\s*([^;]+);", b, re.M):
+                if ma.group(1) != "Item":
+                    pat = re.compile(r"\bSelf\s*::\s*" + ma.group(1) + r"\b")
+                    fns = {k: (pat.sub(squeeze(ma.group(2)), v[0]), pat.sub(squeeze(ma.group(2)), v[1]), v[2]) for k, v in fns.items()}
             blocks.append((trait, fns))
             mg = re.match(r"impl(?:<[^>{}]*>)?\s+(\w+<[^{};]*>)\s+for\s", hdr)
             if mg:
@@ -5098,6 +5150,22 @@ namespace GraafVerif.AlgoGen
 
 '''
 
+HEADER6 = '''import GraafVerif.Model.AlgoGenRt6
+/-!
+# GENERATED by tools/translate_algo.py --set 6 from {repo}/src — do not edit
+
+Sixth generated file of the imperative-Rust-subset → pure-Lean translator (`docs/AlgoGen.md`, "Set 6"): the
+function bodies that no earlier set regenerates — `AdjacencyList::indegree_sequence` (`*ptr.add(v) += 1`),
+the `add_arc` / `add_arc_weighted` of `AdjacencyMap`, `EdgeList`, `AdjacencyListWeighted`, `FloydWarshall::new`,
+the four wrappers of `PredecessorTree`, the default method of `ContiguousOrder`.  `Thm/AlgoGen6.lean` proves
+every definition below equal to the hand-written model function.  Runtime: `Model/AlgoGenRt.lean` ..
+`Model/AlgoGenRt6.lean`.
+-/
+set_option linter.unusedVariables false
+namespace GraafVerif.AlgoGen
+
+'''
+
 SETS = {}
 GEN_ROWS = {}
 
@@ -5112,17 +5180,26 @@ def translate(repo, which=1):
         ext = translate(repo, 3)[2]
         TVar.counter = 0
         TVARS.clear()
+    if which == 6:
+        # `FloydWarshall::new` calls the generated `DistanceMatrix::new` of set 5
+        ext = {k: v for k, v in translate(repo, 5)[2].items() if k[0] == "DistanceMatrix"}
+        TVar.counter = 0
+        TVARS.clear()
     GEN_ROWS.clear()
-    srcs = load(repo, targets)
+    srcs = load(repo, targets + ([(d, None, None, None, {}) for d in DECLS6] if which == 6 else []))
     fntab = dict(ext)
     for r in targets:
         if (r[0], r[2]) in fntab:
             raise TErr(f"{r[0]}::{r[2]} is generated by an earlier set too")
     out = [header.replace("{repo}", repo)]
+    if which == 6:
+        out += [extern_decl(d) for d in DECLS6]      # `load` has checked each declaration against the typed field model
     declared = set()
     for sname, trait, rfn, lname, opts in targets:
         if which == 5 and sname == "DistanceMatrix":
             declared.add(sname)
+        if which == 6:
+            declared.update(SET6_DECLARED_EARLIER)
         if sname not in declared and "extern" not in STRUCTS[sname]:
             for f, rt, ty in STRUCTS[sname]["fields"]:
                 if ty is not None and ty[0] == "struct" and ty[1] not in declared and "extern" not in STRUCTS[ty[1]]:
@@ -5163,7 +5240,7 @@ def coverage(srcs, fntab, which=1):
             continue
         _, blocks, _ = srcs[sname]
         for trait, fns in blocks:
-            full = BLOCK_LABEL.get(id(fns)) if which == 5 else None
+            full = BLOCK_LABEL.get(id(fns)) if which >= 5 else None
             if full and trait != full and any((sname, full, fn) in targeted for fn in fns):
                 continue                      # the same block is listed under its name with arguments
             for fn in fns:
@@ -5175,6 +5252,8 @@ def coverage(srcs, fntab, which=1):
                     aux = [d for d in sig["defs"] if d != f"{sname}.{targeted[k]}"]
                     note = f"`AlgoGen.{sname}.{targeted[k]}`" + (" + " + ", ".join(f"`{a.split('.', 1)[1]}`" for a in aux) if aux else "")
                     rows.append((sname, trait, fn, "covered", note))
+                elif which == 6:
+                    continue                  # set 6 lists its targets only: the other functions of these files are in sets 1 - 5
                 elif k in (NOT_COVERED3 if which == 3 else NOT_COVERED):
                     rows.append((sname, trait, fn, "not covered", (NOT_COVERED3 if which == 3 else NOT_COVERED)[k]))
                 elif "extern" not in STRUCTS[sname]:
@@ -5188,6 +5267,8 @@ def coverage_md(rows):
         fn = STRUCTS[r[0]]["file"] if "dir" not in STRUCTS[r[0]] else STRUCTS[r[0]]["dir"] + "/" + STRUCTS[r[0]]["file"]
         if r[1] == "@free":
             label = "(free fn)"
+        elif r[1] == "@default":
+            label = f"trait {r[0]} (default method)"
         elif r[1] and r[1].startswith("@"):
             label = f"impl From<{r[1].split(':')[1]}> for {r[0]} ({r[1][1:].split(':')[0]}!)"
         else:
@@ -5204,6 +5285,7 @@ def main():
     SETS[3] = (TARGETS3, HEADER3)
     SETS[4] = (TARGETS4, HEADER4)
     SETS[5] = (TARGETS5, HEADER5)
+    SETS[6] = (TARGETS6, HEADER6)
     ap = argparse.ArgumentParser()
     ap.add_argument("--repo", default="/repo")
     ap.add_argument("--set", type=int, default=1, choices=sorted(SETS),
